@@ -11,7 +11,8 @@ ID = "C20"
 LEVEL = "exploration"
 RULE = ("work = number of function-entry events (and, as a finer second measure, line events) inside the package "
         "during MarkdownIt.render, counted with sys.monitoring - deterministic. Families: the named catalogue of "
-        "pathological inputs plus every pump family u^n (units of <=2 atoms; thorough 3) and u^n w v^n (u, v one "
+        "pathological inputs plus every pump family u^n (units of <=2 atoms; thorough 3), prefix u^n suffix (a run inside a link / image "
+        "label, destination, emphasis, quote, list item or definition look-ahead) and u^n w v^n (u, v one "
         "atom, w in {'', a}; thorough two-atom u/v) over a 29-atom alphabet, at input lengths L, 2L, 4L, under "
         "commonmark and js-default(+linkify stub, typographer). Oracle: length-normalised growth "
         "(work(4L)/work(L))/(len(4L)/len(L)) <= 1.5 for both measures (linear = 1, quadratic = 4), calls per "
@@ -107,6 +108,10 @@ NAMED = {
     "dashes_typo": lambda n: "-- ... " * n,
     "linkify_urls": lambda n: "http://a.b " * n,
     "linkify_at": lambda n: "a@b.c " * n,
+    "lt_escaped_backslash": lambda n: "<\\\\" * n,
+    "bracket_escaped_backslash": lambda n: "[\\\\" * n,
+    "backtick_escaped_backslash": lambda n: "`\\\\" * n,
+    "amp_escaped_backslash": lambda n: "&\\\\" * n,
     "crlf": lambda n: "a\r\n" * n,
     "nul": lambda n: "\x00" * n,
 }
@@ -194,6 +199,9 @@ def build_src(fam, L):
     if kind == "rep":
         u = fam[1]
         return u * max(1, L // len(u))
+    if kind == "pre":
+        _, pre, u, suf = fam
+        return pre + u * max(1, L // len(u)) + suf
     _, u, w, v = fam
     n = max(1, L // (len(u) + len(v)))
     return u * n + w + v * n
@@ -258,6 +266,11 @@ def families(tier):
         for v in ATOMS:
             for w in ("", "a"):
                 fams.append(("nest", u, w, v))
+    # a run inside a label / container look-ahead: prefix + u^n (+ closing suffix)
+    for pre, suf in (("[", ""), ("[", "](x)"), ("![", "](x)"), ("[a](", ""), ("*", ""), ("> ", ""), ("- ", ""), ("[a]: ", "")):
+        for u in ATOMS:
+            if u != REFDEF:
+                fams.append(("pre", pre, u, suf))
     if th:
         short = [a for a in ATOMS if a not in (REFDEF, "    ")]
         for u in itertools.product(short, repeat=2):
@@ -283,7 +296,7 @@ def shards(tier):
         use = fams
         if not th and preset == "js-default":
             # quick: the second preset only on the named catalogue and the one-atom pumps
-            use = [f for f in fams if f[0] == "named" or (f[0] == "rep" and f[1] in ATOMS)]
+            use = [f for f in fams if f[0] in ("named", "pre") or (f[0] == "rep" and f[1] in ATOMS)]
         for i in range(0, len(use), 12):
             sh.append(("fams", preset, use[i:i + 12], 500 if th else 400))
     if th:
